@@ -150,14 +150,14 @@ pub mod bitgood {
                 Some(m) => if let Some(d) = &mut self.0 { *d |= 0x80; *d = (*d & !0x38) | ((m & 7) << 3); } else { self.0 = Some(0x80 | ((m & 7) << 3)) },
                 None => if let Some(d) = &mut self.0 { *d &= !(0x80 | 0x38) },
             }
-            if matches!(self.0, Some(0)) { self.0 = None; }
+            if matches!(self.0, Some(d) if d & 0xC0 == 0) { self.0 = None; }
         }
         pub fn set_b(&mut self, m: Option<u8>) {
             match m {
                 Some(m) => if let Some(d) = &mut self.0 { *d |= 0x40; *d = (*d & !0x07) | (m & 7); } else { self.0 = Some(0x40 | (m & 7)) },
                 None => if let Some(d) = &mut self.0 { *d &= !(0x40 | 0x07) },
             }
-            if matches!(self.0, Some(0)) { self.0 = None; }
+            if matches!(self.0, Some(d) if d & 0xC0 == 0) { self.0 = None; }
         }
     }
 }
